@@ -52,7 +52,8 @@ http://www.hyperelliptic.org/efd. Там же можно найти соглаш
 	(zmIsIn(ecX(a), (ec)->f) && zmIsIn(ecY(a, (ec)->f->n), (ec)->f))
 
 #define ecpSeemsOn3(a, ec)\
-	(ecpSeemsOnA(a, ec) && zmIsIn(ecZ(a, (ec)->f->n), (ec)->f))
+	(zmIsIn(ecZ(a, (ec)->f->n), (ec)->f) &&\
+		(qrIsZero(ecZ(a, (ec)->f->n), (ec)->f) || ecpSeemsOnA(a, ec)))
 
 /*
 *******************************************************************************
@@ -1079,7 +1080,7 @@ void ecpNegA(word b[], const word a[], const ec_o* ec)
 	// pre
 	ASSERT(ecIsOperable(ec));
 	ASSERT(ecpSeemsOnA(a, ec));
-	ASSERT(wwIsSameOrDisjoint(a, b, 3 * n));
+	ASSERT(wwIsSameOrDisjoint(a, b, 2 * n));
 	// (xb, yb) <- (xa, -ya)
 	qrCopy(ecX(b), ecX(a), ec->f);
 	zmNeg(ecY(b, n), ecY(a, n), ec->f);
